@@ -251,6 +251,10 @@ def explore(ctx):
             # fractional kerning values too (quarters: exact in binary floating point)
             for m in masters:
                 m["kerning"] = {k: v + Fr(rng.randint(-3, 3), 4) for k, v in m["kerning"].items()}
+        if i % 5 == 4:
+            # the non-default master defines no kerning at all: it contributes zero kerning at its location
+            masters[1]["kerning"] = {}
+            ctx.klass("a master without any kerning")
         # always: values whose blend at t = 1/2 (and 1/4) is an exact half with an EVEN floor and with an odd one, positive and
         # negative (102.5, 103.5, -23.5 ...): rounding is half-up (otRound), not half-to-even
         for g0, g1 in zip(masters[0]["glyphs"], masters[1]["glyphs"]):
@@ -320,6 +324,9 @@ def explore(ctx):
                                                 "components": [], "anchors": []}]
             m["glyphOrder"] = list(base["glyphOrder"]) + ["space"] if k else m.get("glyphOrder")
         base["glyphOrder"] = [g["name"] for g in base["glyphs"]]
+        if i % 4 == 2:
+            # one non-default master (the middle or the last one) without any kerning: zero kerning there
+            masters[1 + (i // 4) % 2]["kerning"] = {}
         locs = [100, 500, 900]
         order = orders[i % 6]
         dflt = (i // 6) % 3
